@@ -461,6 +461,13 @@ func c01EndToEnd(c *vlib.Ctx) {
 		}
 		all := map[int64]sent{}
 		rich := ei%4 != 3
+		// every other environment keeps all its points inside a 3-hour window (one of them
+		// before 1970), so that flushes hold many unordered rows of one hour partition
+		e2eWindowLoUS, e2eWindowSpanUS = 0, 0
+		if ei%2 == 1 {
+			e2eWindowLoUS = []int64{1_700_000_000_000_000, -86_400_000_000 * 400, 3_600_000_000 * 5}[(ei/2)%3]
+			e2eWindowSpanUS = 3 * 3_600_000_000
+		}
 		schemas := make([]*mSchema, 3)
 		for i := range schemas {
 			schemas[i] = genSchema(rng, rich, true, i)
@@ -577,6 +584,7 @@ func c01EndToEnd(c *vlib.Ctx) {
 		}
 		os.RemoveAll(env.root)
 	}
+	e2eWindowLoUS, e2eWindowSpanUS = 0, 0
 }
 
 func indexOfRid(p lpPoint) int {
